@@ -41,10 +41,10 @@ PROP_ASSUMPTIONS = {
     "C01": ["serial read segmentation (bytes_read) is checked natively and exhaustively for short streams only (bounded, not proved)"],
     "C05": ["parsers outside the symbolic reach (1030, 31DA, 2411, 0418, 3220 ...) only have a bounded native stand-in"],
     "C07": ["asyncio.wait_for honours its timeout and the loop keeps running (assumed): 'never hangs' is that contract plus the structural obligation that send_cmd suspends only there",
-            "episodes of at most 3 outside events with one or two callers (bounded); transport write failures, disconnects, the impersonation notice and more than two concurrent callers are not explored"],
+            "episodes of at most 3 outside events with one or two callers (bounded); transport write failures, the impersonation notice and more than two concurrent callers are not explored"],
     "C09": ["episodes of at most 3 outside events with one or two callers, from an idle sender (bounded in depth; nothing is claimed about longer episodes)",
             "the event loop, futures, tasks, wait_for and sleep are contracts written from CPython 3.12's documented ordering rules (FIFO ready queue, deferred first step, cancelled tasks never resume, waiter woken one hop after completion)",
-            "disconnect/reconnect and transport write failures are not explored"],
+            "disconnect/reconnect is explored for one caller only (episode_with_disconnect); transport write failures are not explored"],
     "C08": ["liveness (the retry budget is reached), real-time spacing, ordering under equal priority and equal clock reading, more than two callers: not decided"],
     "C11": ["the window bound is a paper lemma over the proved per-call contracts (DESIGN.md C11), not machine-checked; the gap task's timing is not decided"],
     "C13": ["about 150 composite views (schema/params/status dictionaries, OpenTherm views) are not under contract; they only have the bounded native sweep views_answer_after_a_mutated_packet_native",
